@@ -1,13 +1,16 @@
 (* MemFS: aioftp.pathio.MemoryPathIO transcribed operation by operation (pathio.py:612-849),
    quirks included:
      - get_node through a file returns None                                  (lookup)
-     - _open: 'rb' on a directory -> AttributeError (list has no seek); 'wb'/'ab'/'r+b' create a
-       missing file ('r+b' too!); every handle is the node's BytesIO itself: readable AND
-       writable whatever the mode; 'ab' only positions at the end once (no O_APPEND)
-     - rename: no validation; the source is popped from its parent FIRST, then the node is
-       renamed and replaces/appends under the destination parent.  When the destination parent
-       is a file the failure comes after the pop; when it lies inside the moved subtree the
-       Python objects form a detached cycle: the subtree is gone and the call "succeeds".
+     - _open: 'rb' on a directory -> AttributeError (list has no seek); 'wb'/'ab' create a
+       missing file, 'r+b' on a missing file is FileNotFoundError (since the fix of F06); every
+       handle is the node's BytesIO itself: readable AND writable whatever the mode; 'ab' only
+       positions at the end once (no O_APPEND)
+     - rename (since the fix of F07a/F07b/F17): the source is looked up first (also when source ==
+       destination), the destination parent must exist and be a directory, the destination must
+       not lie inside the source; then the source entry is removed from its parent (`pop` +
+       `break`), renamed, and replaces / is appended under the destination parent.  An existing
+       destination is replaced whatever the types (rename(2) is stricter; RNTO's guard makes
+       that unreachable through the server).
    Times (ctime/mtime) are not modelled.  The return value of write (None) is HUnit. *)
 From Coq Require Import ZArith List Bool.
 From Verif Require Import Lib.Sx Model.FsBase.
@@ -108,39 +111,26 @@ Definition m_stat (t : node) (p : path) : result :=
   | Some (Dir _) => Ok (VStat true 0)
   end.
 
-(* rename's removal loop has no `break` and pops while iterating: after a pop the element that
-   slides into position i is skipped *)
-Fixpoint pop_loop (x : name) (es : entries) : entries :=
-  match es with
-  | [] => []
-  | (n, c) :: r =>
-      if name_eqb n x then
-        match r with
-        | [] => []
-        | e :: r' => e :: pop_loop x r'
-        end
-      else (n, c) :: pop_loop x r
-  end.
-
+(* rename: validation first (FileNotFoundError / NotADirectoryError / OSError "Invalid argument"),
+   then pop-and-break = remove the first entry of that name *)
 Definition m_rename (t : node) (a b : path) : result * node :=
-  if path_eqb a b then (Ok VUnit, t)
-  else
-    match unsnoc a, unsnoc b with
-    | Some (ap, an), Some (bp, bn) =>
-        match get_node t a, get_node t bp with
-        | Some sn, Some dparent =>
-            (* sparent.content.pop(i) *)
-            let t1 := upd ap (on_dir (pop_loop an)) t in
-            match dparent with
-            | File _ => (Err EAttr, t1)      (* fails AFTER the source was removed *)
-            | Dir _ =>
-                if is_prefix a bp then (Ok VUnit, t1)   (* dparent went away with the source *)
-                else (Ok VUnit, upd bp (on_dir (put bn sn)) t1)
+  match get_node t a with
+  | None => (Err ENOENT, t)
+  | Some sn =>
+      if path_eqb a b then (Ok VUnit, t)
+      else
+        match unsnoc a, unsnoc b with
+        | Some (ap, an), Some (bp, bn) =>
+            match get_node t bp with
+            | None => (Err ENOENT, t)
+            | Some (File _) => (Err ENOTDIR, t)
+            | Some (Dir _) =>
+                if is_prefix a b then (Err EINVAL, t)      (* destination.is_relative_to(source) *)
+                else (Ok VUnit, upd bp (on_dir (put bn sn)) (upd ap (on_dir (remove_first an)) t))
             end
-        | _, _ => (Err ENOENT, t)
+        | _, _ => (Err ERoot, t)               (* the root as source or destination: excluded *)
         end
-    | _, _ => (Err ERoot, t)                 (* the root as source or destination: excluded *)
-    end.
+  end.
 
 (* _open + the script on the returned BytesIO + close (a no-op) *)
 Definition m_open (t : node) (p : path) (m : mode) (s : list hop) : result * node :=
@@ -158,9 +148,10 @@ Definition m_open (t : node) (p : path) (m : mode) (s : list hop) : result * nod
   | _ =>
       match get_node t p with
       | None =>
-          match unsnoc p with
-          | None => (Err ERoot, t)
-          | Some (pp, x) =>
+          match m, unsnoc p with
+          | RPB, _ => (Err ENOENT, t)            (* if mode == "r+b": raise FileNotFoundError *)
+          | _, None => (Err ERoot, t)
+          | _, Some (pp, x) =>
               match get_node t pp with
               | Some (Dir _) =>
                   let t1 := upd pp (on_dir (fun es => es ++ [(x, File [])])) t in
